@@ -449,6 +449,170 @@ def run_ngd(ctx, d14, d15, cfg, rng, model0, lik, x, y, exact, collapsed, scale,
                  f"(diff {after - collapsed:.3e}, tol {toln:.1e})", replay)
 
 
+def tri_inv(T):
+    """Exact inverse of a lower-triangular Fraction matrix."""
+    k = len(T)
+    X = V.zeros(k, k)
+    for j in range(k):
+        X[j][j] = 1 / T[j][j]
+        for i in range(j + 1, k):
+            X[i][j] = -sum(T[i][l] * X[l][j] for l in range(j, i)) / T[i][i]
+    return X
+
+
+def phi(A):
+    """`_phi_for_cholesky_`: lower triangle with the diagonal halved."""
+    k = len(A)
+    return [[(A[i][j] / 2 if i == j else A[i][j]) if j <= i else Fraction(0) for j in range(k)] for i in range(k)]
+
+
+def batched_configs(ctx):
+    rng = ctx.rng("batched-configs")
+    out = []
+    for k in range(8 if ctx.quick else 40):
+        out.append({"strategy": ["VariationalStrategy", "UnwhitenedVariationalStrategy"][(k // 2) % 2 if k >= 4 else 0],
+                    "dist": ["NaturalVariationalDistribution", "TrilNaturalVariationalDistribution"][k % 2],
+                    "pb": [[2], [3]][(k // 2) % 2], "z_batched": k % 3 == 0, "M": rng.randint(2, 4 if ctx.quick else 6),
+                    "n": rng.randint(2, 5 if ctx.quick else 8), "d": rng.choice([1, 2]), "kernel": rng.choice(["rbf", "matern"])})
+    return out
+
+
+def run_bound_batched(ctx, d14, d15, cfg, rng, replay_only=None):
+    """Batched variational parameters (batch (2,), (3,)) with Natural / TrilNatural distributions: per batch element
+    N*ELBO <= collapsed bound, the gradient handed to NGD = closed-form expectation-parameter gradient, and (Natural)
+    one NGD(lr=1) step lands on q* / the collapsed bound."""
+    import torch
+    import gpytorch
+    torch.manual_seed(rng.torch_seed())
+    Vv = gpytorch.variational
+    M, n, d, pb = cfg["M"], cfg["n"], cfg["d"], cfg["pb"]
+    whitened = cfg["strategy"] == "VariationalStrategy"
+    natural = cfg["dist"] == "NaturalVariationalDistribution"
+    Z = V.spread_points([*(pb if cfg.get("z_batched") else []), M, d], rng)
+    x = V.spread_points([n, d], rng, lo=-2.5, hi=2.5, min_dist=0.25)
+    y = torch.tensor([rng.uniform(-1.5, 1.5) for _ in range(n)], dtype=torch.float64)
+    dist = getattr(Vv, cfg["dist"])(M, batch_shape=torch.Size(pb))
+
+    class GP(gpytorch.models.ApproximateGP):
+        def __init__(self):
+            super().__init__(getattr(Vv, cfg["strategy"])(self, Z, dist, learn_inducing_locations=True))
+            self.mean_module = gpytorch.means.ConstantMean()
+            self.covar_module = gpytorch.kernels.ScaleKernel(gpytorch.kernels.RBFKernel() if cfg["kernel"] == "rbf"
+                                                              else gpytorch.kernels.MaternKernel(nu=2.5))
+
+        def forward(self, x):
+            return gpytorch.distributions.MultivariateNormal(self.mean_module(x), self.covar_module(x))
+
+    model = GP().double()
+    lik = gpytorch.likelihoods.GaussianLikelihood().double()
+    V.randomize_hypers(model, rng)
+    with torch.no_grad():
+        lik.noise = torch.tensor(rng.uniform(0.05, 0.6), dtype=torch.float64)
+    vs = model.variational_strategy
+    vs.variational_params_initialized.fill_(1)
+    V.randomize_dist(dist, rng)
+    model.train()
+    lik.train()
+    N = n
+    mll = gpytorch.mlls.VariationalELBO(lik, model, num_data=N)
+    opt = gpytorch.optim.NGD(model.variational_parameters(), num_data=N, lr=1.0)
+    mat_param = dist.natural_mat if natural else dist.natural_tril_mat
+    e1_all, e2_all = dist.natural_vec.detach().clone(), mat_param.detach().clone()
+    opt.zero_grad()
+    val = mll(model(x), y)
+    (-val.sum()).backward()
+    val0 = val.detach().clone() * N
+    g1_all, g2_all = dist.natural_vec.grad.detach().clone(), mat_param.grad.detach().clone()
+    after = None
+    if natural:
+        opt.step()
+        with torch.no_grad():
+            try:
+                after = mll(model(x), y).detach().clone() * N
+            except Exception as e:
+                after = e
+    s = V.F(float(lik.noise))
+    mp = V._mp()
+    xx, Zx = V.expand_inputs(x, vs.inducing_points.detach())
+    Kzz, Kzx, Kxx, mX, mZ = V.joint_blocks(model, Zx, xx, M)
+    eps = V.F(vs.jitter_val)
+    epsx = eps if whitened else Fraction(0)
+    for b in range(pb[0]):
+        if replay_only is not None and list(replay_only) != [b]:
+            continue
+        idx = (b,)
+        desc = f"batched {cfg['strategy']}/{cfg['dist']} pb={pb} z_batched={bool(cfg.get('z_batched'))} M={M} n={n} d={d} " \
+               f"kernel={cfg['kernel']} element={b}"
+        replay = {"cfg": cfg, "runner": "bound_batched", "idx": [b]}
+        kzz, kzx, kxx = (V.fmat(V.bget(t, idx, 2)) for t in (Kzz, Kzx, Kxx))
+        kzz, kxx = V.sym_lower(kzz), V.sym_lower(kxx)
+        mx = V.fcol(V.bget(mX, idx, 1))
+        kappa = V.kappa_of(kzz, eps)
+        if kappa > 1e6:
+            ctx.count("discarded_ill_conditioned")
+            continue
+        r = [[V.F(float(y[i])) - mx[i][0]] for i in range(n)]
+        qA, detA, trD, qC, detC = (V.sc(t) for t in d15.ask(
+            f"C {M} {n} {V.toks(kzz)} {V.toks(kzx)} {V.toks(kxx)} {V.toks(r)} {C.rat_str(eps)} {C.rat_str(epsx)} {C.rat_str(s)}"))
+        collapsed = float(-(V.mpf(qA) + V.log_frac(detA) + n * mp.log(2 * mp.pi)) / 2 - V.mpf(trD) / (2 * V.mpf(s)))
+        scale = max(1.0, abs(collapsed))
+        key = f"batched:{cfg['strategy']}:{cfg['dist'].replace('VariationalDistribution', '')}"
+        ctx.case(desc + f" seed={C.seed()}", sample={"case": desc, "N_elbo": float(val0[b]), "collapsed": collapsed})
+        ctx.count("batched_checks")
+        tolb = 1e-9 * scale * max(1.0, kappa * 1e-4)
+        if float(val0[b]) > collapsed + tolb:
+            ctx.fail(f"{key}/elbo-exceeds-collapsed-bound", f"{desc}: N*ELBO = {float(val0[b])!r} > collapsed bound {collapsed!r}",
+                     dict(replay, what="random-q"))
+        # gradient handed to the optimiser vs the closed-form expectation-parameter gradient (whitened coordinates)
+        L = V.hp_chol(V.add_jit(kzz, eps))
+        e1 = V.fcol(e1_all[b])
+        Pm = V.fmat(e2_all[b])
+        if natural:
+            e2 = Pm
+        else:  # eta2 = -1/2 T^T T  (only the lower triangle of T is read)
+            Tl = [[Pm[i][j] if j <= i else Fraction(0) for j in range(M)] for i in range(M)]
+            TtT = V.mmul(V.mT(Tl), Tl)
+            e2 = [[-v / 2 for v in row] for row in TtT]
+        if whitened:
+            mg1, mg2 = d15.ask(f"G {M} {n} {V.toks(L)} {V.toks(kzx)} {V.toks(r)} {C.rat_str(s)} {N} {V.toks(e1)} {V.toks(e2)}")
+            if natural:
+                exp2 = mg2
+            else:
+                Li_ = tri_inv(Tl)      # L = T^{-1};  dout/dT = phi(-2 L^T G2 L) T
+                A = V.mmul(V.mT(Li_), V.mmul(mg2, Li_))
+                exp2 = V.mmul(phi([[-2 * v for v in row] for row in A]), Tl)
+            gerr = max(max(abs(float(a[0]) - g) for a, g in zip(mg1, g1_all[b].tolist())),
+                       max(abs(float(a) - g) for ra, rg in zip(exp2, g2_all[b].tolist()) for a, g in zip(ra, rg)))
+            gs = max([1.0] + [abs(float(a)) for ra in exp2 for a in ra] + [abs(float(a[0])) for a in mg1])
+            _state["worst_grad_batched"] = max(_state.get("worst_grad_batched", 0.0), gerr / gs)
+            if gerr > 1e-7 * gs * max(1.0, kappa * 1e-3):
+                ctx.fail(f"{key}/natural-gradient",
+                         f"{desc}: the gradient handed to NGD differs from the closed-form expectation-parameter gradient "
+                         f"-(1/N)(eta* - eta){'' if natural else ' (mapped to the tril parameter)'} by {gerr:.3e} (scale {gs:.2e})",
+                         dict(replay, what="gradient"))
+        if natural:
+            if isinstance(after, Exception):
+                ctx.fail(f"{key}/one-step-not-optimal", f"{desc}: objective cannot be evaluated after the NGD step: {after!r}",
+                         dict(replay, what="ngd"))
+                continue
+            # parameters after the step vs eta*
+            if whitened:
+                o1, o2 = d15.ask(f"OPT {M} {n} {V.toks(L)} {V.toks(kzx)} {V.toks(r)} {C.rat_str(s)}")[:2]
+                perr = max(max(abs(float(a[0]) - g) for a, g in zip(o1, dist.natural_vec.detach()[b].tolist())),
+                           max(abs(float(a) - g) for ra, rg in zip(o2, dist.natural_mat.detach()[b].tolist()) for a, g in zip(ra, rg)))
+                ps = max([1.0] + [abs(float(a)) for ra in o2 for a in ra])
+                if perr > 1e-7 * ps * max(1.0, kappa * 1e-3):
+                    ctx.fail(f"{key}/one-step-not-optimal", f"{desc}: natural parameters after one NGD(lr=1) step differ from "
+                             f"eta* by {perr:.3e}", dict(replay, what="ngd-parameters"))
+            toln = 1e-7 * scale * max(1.0, kappa * 1e-3)
+            ctx.count("ngd_checks_batched")
+            _state["worst_ngd_batched"] = max(_state.get("worst_ngd_batched", 0.0), abs(float(after[b]) - collapsed) / scale)
+            if abs(float(after[b]) - collapsed) > toln:
+                ctx.fail(f"{key}/one-step-not-optimal",
+                         f"{desc}: after one NGD(lr=1) step N*ELBO = {float(after[b])!r}, collapsed bound = {collapsed!r} "
+                         f"(diff {float(after[b]) - collapsed:.3e}, tol {toln:.1e})", dict(replay, what="ngd"))
+
+
 # ------------------------------------------------------------------ entry points
 
 def guarded(ctx, runner, cfg, thunk):
@@ -480,10 +644,13 @@ def correspondence(ctx):
         for i, cfg in enumerate(bound_configs(ctx)):
             cfg["rng_label"] = f"bound:{i}"
             guarded(ctx, "bound", cfg, lambda c=cfg: run_bound(ctx, d14, d15, c, ctx.rng(c["rng_label"])))
+        for i, cfg in enumerate(batched_configs(ctx)):
+            cfg["rng_label"] = f"batched:{i}"
+            guarded(ctx, "bound_batched", cfg, lambda c=cfg: run_bound_batched(ctx, d14, d15, c, ctx.rng(c["rng_label"])))
     finally:
         d14.close()
         d15.close()
-    for k in ("worst", "worst_opt", "worst_ngd", "worst_grad", "min_gap"):
+    for k in ("worst", "worst_opt", "worst_ngd", "worst_grad", "min_gap", "worst_grad_batched", "worst_ngd_batched"):
         if k in _state:
             ctx.notes[f"c15_{k}"] = _state[k]
     ctx.notes["driver_requests"] = d14.n + d15.n
@@ -522,6 +689,8 @@ def replay(ctx, payload):
         rng = ctx.rng(cfg.get("rng_label", ""))
         if case.get("runner") == "objective":
             run_objective(ctx, d14, d15, cfg, rng, replay_only=case.get("idx"))
+        elif case.get("runner") == "bound_batched":
+            run_bound_batched(ctx, d14, d15, cfg, rng, replay_only=case.get("idx"))
         else:
             run_bound(ctx, d14, d15, cfg, rng)
     finally:
